@@ -16,6 +16,7 @@ package main
 import (
 	"fmt"
 	"go/ast"
+	"go/build"
 	"go/parser"
 	"go/token"
 	"os"
@@ -26,6 +27,18 @@ import (
 )
 
 type notUnderstood struct{ msg string }
+
+// buildOK: the file is part of the package as the compiler sees it here (no test file; its build constraints — //go:build lines and
+// _GOOS / _GOARCH suffixes — are satisfied without extra tags, so verif_hooks.go is left out)
+func buildOK(dir string) func(os.FileInfo) bool {
+	return func(fi os.FileInfo) bool {
+		if strings.HasSuffix(fi.Name(), "_test.go") {
+			return false
+		}
+		ok, err := build.Default.MatchFile(dir, fi.Name())
+		return err == nil && ok
+	}
+}
 
 func fail(f string, a ...interface{}) { panic(notUnderstood{fmt.Sprintf(f, a...)}) }
 
@@ -310,7 +323,7 @@ func main() {
 		ref = refBlocks(os.Args[3])
 	}
 	fset := token.NewFileSet()
-	pkgs, err := parser.ParseDir(fset, filepath.Join(repo, "v3/report"), func(fi os.FileInfo) bool { return !strings.HasSuffix(fi.Name(), "_test.go") }, 0)
+	pkgs, err := parser.ParseDir(fset, filepath.Join(repo, "v3/report"), buildOK(filepath.Join(repo, "v3/report")), 0)
 	if err != nil {
 		fmt.Fprintln(os.Stderr, "wiring:", err)
 		os.Exit(1)
